@@ -193,7 +193,18 @@ func (g *gen) fetchOracle(b blob.Ref, out string) {
 		before++
 	}
 	ok := strings.HasPrefix(out, "ok ")
+	anyDown := false
+	for _, id := range g.w.reads {
+		if g.w.subs[id].down.Load() {
+			anyDown = true
+		}
+	}
 	switch {
+	case !holder && anyDown && strings.HasPrefix(out, "err notexist"):
+		// a failed replica might hold the blob: the miss must not be reported as "not exist"
+		g.fail("fetch-miss-notexist-despite-failed-replica", fmt.Sprintf("reads=%v", g.w.reads), "err down", out)
+	case !holder && !anyDown && !strings.HasPrefix(out, "err notexist"):
+		g.fail("fetch-miss-not-notexist", fmt.Sprintf("reads=%v", g.w.reads), "err notexist", out)
 	case holder && !ok:
 		g.fail("fetch-miss-despite-holder", fmt.Sprintf("reads=%v", g.w.reads), "ok", out)
 	case !holder && ok:
@@ -209,7 +220,10 @@ func (g *gen) fetchOracle(b blob.Ref, out string) {
 	} else {
 		g.r.Hit("fetch:fail")
 	}
-	g.r.Distinct(fmt.Sprintf("fetch/%d/%d/%v", len(g.w.reads), before, ok))
+	if !ok && anyDown {
+		g.r.Hit("fetch:miss-reported-as-replica-failure")
+	}
+	g.r.Distinct(fmt.Sprintf("fetch/%d/%d/%v/%v", len(g.w.reads), before, ok, anyDown))
 }
 
 func parseSRs(s string) []string {
@@ -648,6 +662,15 @@ func (g *gen) probes() {
 	ex("stores 3")
 	o1 := ex("cfg 5 0,1,2 -")
 	o2 := ex(fmt.Sprintf("recv %s %s 0:ok,1:ok,2:ok run", b.key, b.chex))
+	w2 := &world{}
+	ex2 := func(l string) string { return hk.Guard(func() string { return w2.exec(strings.Fields(l)) }) }
+	ex2("stores 2")
+	ex2(fmt.Sprintf("put 0 %s %s", b.key, b.chex))
+	ex2("down 0 1")
+	ex2("cfg 1 0,1 -")
+	o3 := ex2("fetch " + b.key)
+	g.r.Probe("F-C12-2", strings.HasPrefix(o3, "err notexist"),
+		fmt.Sprintf("read replica 0 holds the blob but is down, replica 1 is healthy without it: Fetch -> %q", o3))
 	g.r.Probe("F-C12-1", strings.HasPrefix(o1, "ok ") && strings.HasPrefix(o2, "zero"),
 		fmt.Sprintf("cfg minWritesForSuccess=5 over 3 backends -> %q; ReceiveBlob with 3 good replicas -> %q", o1, o2))
 }
